@@ -113,11 +113,35 @@ class Arrays:
     def __init__(self, layout):
         self.layout = layout
         self.given = []
+        self.pool = {}              # 'reuse' world: (op index, n-th constant of that op) -> the user's buffer
+        self.phase = None           # 'decoy' | 'real'
+        self.cur_op = 0
+        self.nth = 0
+
+    def at_op(self, i):
+        self.cur_op, self.nth = i, 0
 
     def __call__(self, v):
         if not isinstance(v, np.ndarray):
             return v
         lay = self.layout
+        if lay == 'reuse':
+            # the user keeps ONE buffer per coefficient array and refreshes it in place between two builds: the first
+            # (decoy) build sees other numbers in the very same array objects
+            key = (self.cur_op, self.nth)
+            self.nth += 1
+            if self.phase == 'decoy':
+                a = np.array(v, dtype=float) * 1.5 + 0.25
+                self.pool[key] = a
+                return a
+            a = self.pool.get(key)
+            if a is None or a.shape != v.shape:
+                a = np.array(v, dtype=float)
+            else:
+                a[...] = v
+                self.reused = getattr(self, 'reused', 0) + 1
+            self.given.append((a, a.tobytes(), a.dtype.str, a.shape))
+            return a
         a = np.array(v, dtype=float)
         if lay == 'F':
             a = np.asfortranarray(a)
@@ -189,6 +213,19 @@ def run_world(ops, wc, keep=False):
         st_np = np.random.get_state()
         arrs = Arrays(wc.get('layout', 'C'))
         w = W.World(epoch=wc.get('epoch', 1.7e9))
+        if wc.get('layout') == 'reuse':
+            # decoy build: same declaration steps, other numbers, in the buffers the real build will be handed again
+            arrs.phase = 'decoy'
+            it_d = interp.Interp(rs, W.World(epoch=wc.get('epoch', 1.7e9)), hooks={'const': arrs})
+            with W.Bound(it_d.w, rs):
+                for i, op in enumerate(ops):
+                    arrs.at_op(i)
+                    it_d.step(copy.deepcopy(op))
+                try:
+                    it_d.env['m'].do_math()
+                except Exception:
+                    pass
+            arrs.phase = 'real'
         it = interp.Interp(rs, w, hooks={'const': arrs, 'matmul_left': arrs.matmul_left} if wc.get('layout') == 'csr' else {'const': arrs})
         if wc.get('gc') == 'off':
             gc.disable()
@@ -197,6 +234,7 @@ def run_world(ops, wc, keep=False):
         try:
             with W.Bound(w, rs):
                 for i, op in enumerate(ops):
+                    arrs.at_op(i)
                     it.step(op)
                     if wc.get('gc') == 'collect':
                         junk = [bytearray(32 + 16 * (k % 7)) for k in range(40)]
@@ -371,6 +409,8 @@ def gen_case(seed, cfg):
          'dtype_only': True},
         # same declaration, but the dual is formulated before the primal
         {'name': 'W6', 'where': 'here', 'layout': 'C', 'rng_seed': 0, 'epoch': 1.7e9, 'dual_first': True},
+        # the same array objects served an earlier build with other numbers and were refreshed in place (bit-wise comparison)
+        {'name': 'W8', 'where': 'here', 'layout': 'reuse', 'rng_seed': 0, 'epoch': 1.7e9},
     ]
     # repetition sequence (iv)
     from machines.hist import FAULTS_BY_ENGINE
